@@ -27,10 +27,12 @@ def main():
     sid = f'{pid}-{n}'
     out = os.path.join(HERE, 'seeded', sid)
     os.makedirs(out, exist_ok=True)
-    shutil.copy(patch, os.path.join(out, 'patch.diff'))
-    shutil.copy(demo, os.path.join(out, 'demo.py'))
-    if os.path.exists(notes):
-        shutil.copy(notes, os.path.join(out, 'agent_notes.md'))
+    def cp(src, dst):
+        if os.path.exists(src) and os.path.realpath(src) != os.path.realpath(dst):
+            shutil.copy(src, dst)
+    cp(patch, os.path.join(out, 'patch.diff'))
+    cp(demo, os.path.join(out, 'demo.py'))
+    cp(notes, os.path.join(out, 'agent_notes.md'))
     meta = {'id': sid, 'breaks_property': pid, 'base_commit': sh('git -C /repo rev-parse --short HEAD').stdout.strip(), 'ran': []}
     # 2. demonstration in a scratch worktree
     wt = f'/tmp/seedchk_{sid}'
@@ -49,23 +51,31 @@ def main():
         meta['ran'].append(f'scratch worktree {wt}: demo.py unmodified -> exit {r0.returncode}; with patch -> exit {r1.returncode}')
     finally:
         sh(f'git -C /repo worktree remove --force {wt}; rm -rf {wt}')
-    # 3. checks against the patch
-    assert sh('git -C /repo diff --quiet').returncode == 0, '/repo dirty'
+    # 3. checks against the patch, in a scratch worktree (PYTHONPATH + GEARPY_REPO make run_check.py import that tree),
+    #    so that /repo itself is never modified while other checks may be running
     detected = {}
-    ap = sh(f'git -C /repo apply {out}/patch.diff')
+    wt = f'/tmp/seedrun_{sid}'
+    sh(f'git -C /repo worktree remove --force {wt}; rm -rf {wt}')
+    sh(f'git -C /repo worktree add --detach {wt} HEAD')
     try:
+        ap = sh(f'cd {wt} && git apply {out}/patch.diff')
         if ap.returncode == 0:
             for c in checks:
                 t0 = time.time()
-                r = sh(f'cd {HERE} && /venv/bin/python -B run_check.py {c} --tier {tier}')
+                r = sh(f'cd {HERE} && PYTHONPATH={wt} GEARPY_REPO={wt} VERIF_EVIDENCE_DIR=/tmp/seed_evidence /venv/bin/python -B run_check.py {c} --tier {tier}')
                 sigs = [l.strip()[:200] for l in r.stdout.splitlines() if l.strip().startswith('sig=')]
                 detected[c] = {'exit': r.returncode, 'violations': sum(1 for l in r.stdout.splitlines() if l.startswith('VIOLATION')),
                                'first_signatures': sigs[:4], 'wall_s': round(time.time() - t0, 1), 'tier': tier}
-                meta['ran'].append(f'git -C /repo apply patch.diff; run_check.py {c} --tier {tier} -> exit {r.returncode}; git -C /repo checkout -- .')
+                meta['ran'].append(f'scratch worktree of /repo HEAD + patch.diff; PYTHONPATH=<wt> GEARPY_REPO=<wt> run_check.py {c} --tier {tier} -> exit {r.returncode}')
     finally:
-        sh('git -C /repo checkout -- .')
+        sh(f'git -C /repo worktree remove --force {wt}; rm -rf {wt}')
+    mp = os.path.join(out, 'meta.json')
+    if os.path.exists(mp):
+        prev = json.load(open(mp)).get('checks', {})
+        for c, d in prev.items():
+            detected.setdefault(c, d)
     meta['checks'] = detected
-    meta['detected_by'] = [c for c, d in detected.items() if d['exit'] == 1 and d['violations'] > 0]
+    meta['detected_by'] = sorted(c for c, d in detected.items() if d['exit'] == 1 and d['violations'] > 0)
     # 4. queue the suite
     os.makedirs('/tmp/suiteq', exist_ok=True)
     open(f'/tmp/suiteq/{sid}.job', 'w').write(out)
